@@ -1,13 +1,13 @@
 package harness
 
 import (
-	"reflect"
 	"bytes"
 	"encoding/binary"
 	"errors"
 	"fmt"
 	"io"
 	"net"
+	"reflect"
 	"strings"
 	"testing"
 	"time"
@@ -28,7 +28,8 @@ type memStream struct {
 	frags       []int
 	fi          int
 	tailFail    bool
-	transientAt int // >0: one read error after this many bytes, then the stream goes on
+	eofWithLast bool // the last bytes come together with io.EOF, as the io.Reader contract allows (a QUIC FIN with data)
+	transientAt int  // >0: one read error after this many bytes, then the stream goes on
 	delivered   int
 	tripped     bool
 	out         bytes.Buffer
@@ -64,6 +65,9 @@ func (m *memStream) Read(p []byte) (int, error) {
 	copy(p, m.in[:n])
 	m.in = m.in[n:]
 	m.delivered += n
+	if m.eofWithLast && len(m.in) == 0 && !m.tailFail {
+		return n, io.EOF
+	}
 	return n, nil
 }
 func (m *memStream) Write(p []byte) (int, error) {
@@ -76,12 +80,12 @@ func (m *memStream) Write(p []byte) (int, error) {
 	}
 	return m.out.Write(p)
 }
-func (m *memStream) SetWriteDeadline(time.Time) error   { return nil }
-func (m *memStream) SetReadDeadline(time.Time) error    { return nil }
-func (m *memStream) SetDeadline(time.Time) error        { return nil }
-func (m *memStream) Close() error                       { return nil }
-func (m *memStream) CancelRead(wtgo.StreamErrorCode)    {}
-func (m *memStream) CancelWrite(wtgo.StreamErrorCode)   {}
+func (m *memStream) SetWriteDeadline(time.Time) error { return nil }
+func (m *memStream) SetReadDeadline(time.Time) error  { return nil }
+func (m *memStream) SetDeadline(time.Time) error      { return nil }
+func (m *memStream) Close() error                     { return nil }
+func (m *memStream) CancelRead(wtgo.StreamErrorCode)  {}
+func (m *memStream) CancelWrite(wtgo.StreamErrorCode) {}
 
 type shimSession struct {
 	codes []int
@@ -109,6 +113,7 @@ func (p *simplePool) Get() any {
 	}
 	return nil
 }
+
 // Put: what is handed back belongs to the pool, which may do anything with it at once (a pool shared with other
 // connections, a pool that scrubs): this one overwrites every byte slice it is given.
 func (p *simplePool) Put(x any) {
@@ -438,13 +443,12 @@ func lenClass(n, wbuf int) string {
 	return "64bit,>2(wbuf+9)"
 }
 
-
 // ---- op interpreter (the generators and --replay both go through it) ----
 
 type wtInterp struct {
 	prepared map[string]*webtransport.PreparedMessage
-	w *wconn
-	r *rconn
+	w        *wconn
+	r        *rconn
 }
 
 func (it *wtInterp) Exec(line string) string {
@@ -499,6 +503,7 @@ func (it *wtInterp) Exec(line string) string {
 		if strings.HasPrefix(t[3], "t") { // t<k>: a single read error after k bytes, the stream recovers
 			it.r.s.transientAt = atoi(t[3][1:])
 		}
+		it.r.s.eofWithLast = t[3] == "E" // E: a clean end like e, the last bytes arriving together with io.EOF
 		return "ok"
 	case "next":
 		return it.r.next()
@@ -689,7 +694,9 @@ func writeFaults(r *Rec) {
 	}
 	steps := []step{
 		{"WritePreparedMessage", func(w *wconn, pm *webtransport.PreparedMessage) error { return w.c.WritePreparedMessage(pm) }},
-		{"WriteMessage", func(w *wconn, pm *webtransport.PreparedMessage) error { return w.c.WriteMessage(webtransport.TextMessage, []byte("after")) }},
+		{"WriteMessage", func(w *wconn, pm *webtransport.PreparedMessage) error {
+			return w.c.WriteMessage(webtransport.TextMessage, []byte("after"))
+		}},
 		{"NextWriter+Close", func(w *wconn, pm *webtransport.PreparedMessage) error {
 			wr, err := w.c.NextWriter(webtransport.BinaryMessage)
 			if err != nil {
@@ -933,6 +940,9 @@ func famWTRead(t *testing.T, r *Rec) {
 				}
 				if pattern == 1 || r.rng.IntN(2) == 0 {
 					n := 1 + r.rng.IntN(200)
+					if r.rng.IntN(4) == 0 {
+						n = 5000 + r.rng.IntN(70000) // a destination larger than any buffer: bufio hands the stream's own (n, err) through
+					}
 					o := do(fmt.Sprintf("wt read %d", n))
 					if f := strings.Fields(o); len(f) == 3 && len(unhx(f[1])) > n {
 						r.Violate("C15", "C15/bounded/"+sc.name, "Read returned more than asked", replay)
@@ -950,6 +960,48 @@ func famWTRead(t *testing.T, r *Rec) {
 		rc.done()
 		if len(r.samples) < 6 && len(sc.stream) < 60 {
 			r.Sample(strings.Join(replay, " ; "))
+		}
+	}
+	// the last frame's bytes arriving together with io.EOF (a QUIC FIN with data), read with a destination larger than
+	// the connection's buffer, so that bufio hands the stream's own (n, io.EOF) through: the frame is complete and is
+	// delivered as such
+	for _, rbuf := range []int{16, 32, 0} {
+		size := rbuf
+		if size == 0 {
+			size = 4096
+		}
+		for _, n := range []int{size, size + 1, 3*size + 7} {
+			for _, lead := range []bool{false, true} {
+				payload := bytes_repeat('f', n)
+				var stream []byte
+				if lead {
+					stream = append(stream, specEncode("t", []byte("lead"), formMin)...)
+				}
+				stream = append(stream, specEncode("b", payload, formMin)...)
+				it := &wtInterp{}
+				var replay []string
+				do := func(op string) string {
+					out := it.Exec(op)
+					r.Op(op, out)
+					replay = append(replay, op)
+					return out
+				}
+				r.scenarios++
+				do(fmt.Sprintf("wt rnew 0 E 0 %s - %d", hx(stream), rbuf))
+				if lead {
+					do("wt next")
+					do("wt readall")
+				}
+				do("wt next")
+				o := do("wt read 200000")
+				r.Cover(fmt.Sprintf("eof-with-last-bytes/rbuf=%d/lead=%s", rbuf, b01(lead)))
+				// the bytes, and a clean end of the message: an error here makes ReadMessage / io.ReadAll drop a complete message
+				if f := strings.Fields(o); len(f) != 3 || f[0] != "data" || f[1] != hx(payload) || f[2] != "eof" {
+					r.Violate("C14", "C14/decoder/eof-with-last-bytes", fmt.Sprintf("a complete %d-byte frame whose last bytes arrive together with io.EOF was not delivered as a complete message (bytes, then a clean end): %.40s ... %s", n, o, o[max(0, len(o)-8):]), replay)
+					r.Violate("C15", "C15/content/eof-with-last-bytes", fmt.Sprintf("a complete %d-byte frame whose last bytes arrive together with io.EOF was not delivered as a complete message (bytes, then a clean end): %.40s ... %s", n, o, o[max(0, len(o)-8):]), replay)
+				}
+				it.r.done()
+			}
 		}
 	}
 	// huge declared lengths read through ReadMessage without a limit: an error (truncated), never a panic
@@ -1121,11 +1173,11 @@ func monitorRead(r *Rec, name string, valid bool, stream []byte, want []rmsg, bo
 	}
 	// independent parse of the stream
 	type fr struct {
-		kind      string
-		declared  uint64
-		payload   []byte
-		complete  bool
-		headerOK  bool
+		kind     string
+		declared uint64
+		payload  []byte
+		complete bool
+		headerOK bool
 	}
 	var frames []fr
 	p := stream
